@@ -19,11 +19,17 @@ where
     match params.is_sequential() {
         true => seq_map_col(iter, map, collected),
         false => {
+            // positions handed out by a concurrent iterator that was advanced before the computation
+            // was built continue from the elements taken beforehand
+            let taken = match (iter.try_get_initial_len(), iter.try_get_len()) {
+                (Some(initial), Some(remaining)) => initial - remaining,
+                _ => 0,
+            };
             let offset = collected.len();
             // if `map` panics the bag is left with gaps and its destructor would drop positions
             // that were never written; leak it while unwinding instead
             let collected = std::mem::ManuallyDrop::new(collected);
-            let task = |c| task(&iter, &map, &collected, offset, c);
+            let task = |c| task(&iter, &map, &collected, offset, taken, c);
             let _num_spawned = Runner::run(params, ParTask::Collect, &iter, &task);
             let collected = std::mem::ManuallyDrop::into_inner(collected);
             unsafe { collected.into_inner().unwrap_only_if_counts_match() }
@@ -36,6 +42,7 @@ fn task<I, Out, Map, P>(
     map: &Map,
     collected: &ConcurrentOrderedBag<Out, P>,
     offset: usize,
+    taken: usize,
     chunk_size: usize,
 ) where
     I: ConcurrentIter,
@@ -46,12 +53,12 @@ fn task<I, Out, Map, P>(
     match chunk_size {
         1 => {
             iter.ids_and_values()
-                .map(|(idx, value)| (offset + idx, map(value)))
+                .map(|(idx, value)| (offset + idx - taken, map(value)))
                 .for_each(|(idx, value)| unsafe { collected.set_value(idx, value) });
         }
         c => {
             while let Some(chunk) = iter.next_chunk(c) {
-                let begin_idx = offset + chunk.begin_idx;
+                let begin_idx = offset + chunk.begin_idx - taken;
                 unsafe { collected.set_values(begin_idx, chunk.values.map(&map)) };
             }
         }
